@@ -172,6 +172,7 @@ func body(cfg scenCfg) func() {
 	return func() {
 		sys := vsys.New(cfg.procsPer)
 		sys.MaxMachines = cfg.machines
+		vsched.Cleanup(sys.Stop) // stop the machines' background loops after the execution
 		sys.Keepalive = [3]time.Duration{20 * time.Millisecond, time.Minute, 10 * time.Second}
 		if cfg.stop {
 			// loss of a killed machine is noticed after the keepalive timeout
@@ -224,27 +225,56 @@ func body(cfg scenCfg) func() {
 			vsched.Go(fmt.Sprintf("req%d", i), func() {
 				defer wg.Done()
 				c, cancel := request(cfg.prios[i], procs)
+				// Environment tokens are RESERVED before the Choose point that may spend them
+				// and handed back if it does not: testing the budget before the point and
+				// decrementing after it let two requesters parked at their points both spend
+				// the last token (two transport errors with netErrs=1 put both machines on
+				// probation and the third request could never be granted — a deadlock made by
+				// the harness, reported once as request-never-granted-or-deadlock).
 				doCancel := false
-				vsched.Monitor(monKey, func() { doCancel = cancelLeft > 0 })
-				if doCancel && vsched.Choose("cancel?", 2) == 1 {
-					vsched.Monitor(monKey, func() { cancelLeft-- })
-					cancel()
-					return
+				vsched.Monitor(monKey, func() {
+					if doCancel = cancelLeft > 0; doCancel {
+						cancelLeft--
+					}
+				})
+				if doCancel {
+					if vsched.Choose("cancel?", 2) == 1 {
+						cancel()
+						return
+					}
+					vsched.Monitor(monKey, func() { cancelLeft++ })
 				}
 				m := vsched.Recv("grant", c)
 				// environment: maybe stop a machine now
 				doStop := false
-				vsched.Monitor(monKey, func() { doStop = stopLeft > 0 })
+				vsched.Monitor(monKey, func() {
+					if doStop = stopLeft > 0; doStop {
+						stopLeft--
+					}
+				})
 				stoppedMine := false
-				if doStop && vsched.Choose("stop?", 2) == 1 {
-					vsched.Monitor(monKey, func() { stopLeft--; l.machine(m).stopped = true; l.machine(m).probation = false })
-					stopMachine(sys, m)
-					stoppedMine = true
+				if doStop {
+					if vsched.Choose("stop?", 2) == 1 {
+						vsched.Monitor(monKey, func() { l.machine(m).stopped = true; l.machine(m).probation = false })
+						stopMachine(sys, m)
+						stoppedMine = true
+					} else {
+						vsched.Monitor(monKey, func() { stopLeft++ })
+					}
 				}
 				// outcome of the work
 				n := 1
 				var canNet, canRem bool
-				vsched.Monitor(monKey, func() { canNet, canRem = netLeft > 0, remLeft > 0 })
+				if !stoppedMine {
+					vsched.Monitor(monKey, func() {
+						if canNet = netLeft > 0; canNet {
+							netLeft--
+						}
+						if canRem = remLeft > 0; canRem {
+							remLeft--
+						}
+					})
+				}
 				if canRem {
 					n = 2
 				}
@@ -255,14 +285,23 @@ func body(cfg scenCfg) func() {
 				if stoppedMine {
 					err = errors.New("connection refused (machine stopped)")
 				} else {
+					usedNet, usedRem := false, false
 					switch k := vsched.Choose("outcome", n); {
 					case k == 1 && canRem:
-						vsched.Monitor(monKey, func() { remLeft-- })
+						usedRem = true
 						err = baseerrors.E(baseerrors.Remote, "application error")
 					case k == 2 || (k == 1 && !canRem && canNet):
-						vsched.Monitor(monKey, func() { netLeft-- })
+						usedNet = true
 						err = baseerrors.E(baseerrors.Net, "connection reset")
 					}
+					vsched.Monitor(monKey, func() {
+						if canNet && !usedNet {
+							netLeft++
+						}
+						if canRem && !usedRem {
+							remLeft++
+						}
+					})
 				}
 				m.Done(procs, err)
 			})
